@@ -19,6 +19,10 @@ mod value;
 #[cfg(kani)]
 mod avec;
 #[cfg(kani)]
+mod eslice;
+#[cfg(kani)]
 mod subrange;
+#[cfg(kani)]
+mod reloc;
 #[cfg(kani)]
 mod wprim;
